@@ -412,6 +412,13 @@ def run_api_case(acc, idx, c):
 
     xe = edges(xc, nx, logx, (ex["xmin"], ex["xmax"]) if ex and "xmin" in ex and "xmax" in ex else None)
     ye = edges(yc, ny, logy, (ex["ymin"], ex["ymax"]) if ex and "ymin" in ex and "ymax" in ex else None)
+    # a limit that was requested is the edge of the grid on that side, whether or not the opposite limit was given too
+    if ex:
+        for key, e_, side in (("xmin", xe, 0), ("xmax", xe, -1), ("ymin", ye, 0), ("ymax", ye, -1)):
+            if key in ex and e_ is not None and not np.isclose(e_[side], ex[key], rtol=1e-9, atol=0):
+                acc.violation(f"C05:histogram2d-requested-limit-not-honoured:{'both-limits-given' if (key[0] + ('max' if key.endswith('min') else 'min')) in ex else 'opposite-limit-automatic'}",
+                              idx, c, {"limit": key, "requested": ex[key], "grid_edge": float(e_[side])})
+                return "violation"
     data = [np.ma.getdata(l["data"]) for l in p.layers]
     masks = [np.ma.getmaskarray(l["data"]) for l in p.layers]
     nlay = max(1, len(layers))
